@@ -1,43 +1,3 @@
 /- The 256-bit vector back end of Skinny-128 parallel ECB: all lemmas (see `Vec256Base`) -/
 import SkinnyVerif.Lemmas.Vec256Round
-import SkinnyVerif.Lemmas.Vec256LoadELo
-import SkinnyVerif.Lemmas.Vec256LoadEHi
-import SkinnyVerif.Lemmas.Vec256LoadDLo
-import SkinnyVerif.Lemmas.Vec256LoadDHi
-import SkinnyVerif.Lemmas.Vec256StoreELo
-import SkinnyVerif.Lemmas.Vec256StoreEHi
-import SkinnyVerif.Lemmas.Vec256StoreDLo
-import SkinnyVerif.Lemmas.Vec256StoreDHi
-
-namespace SkinnyVerif.Lemmas
-open SkinnyVerif SkinnyVerif.Gen SkinnyVerif.Impl SkinnyVerif.Spec.Skinny
-
-theorem v256p_enc_load_lane (input : BitVec 1024) (j : Nat) (hj : j < 8) :
-    packT (laneRows8 (v256p_enc_load input) j) = input.extractLsb' (128 * j) 128 := by
-  by_cases h : j < 4
-  · exact v256p_enc_load_lane_lo input j h
-  · obtain ⟨k, rfl⟩ : ∃ k, j = k + 4 := ⟨j - 4, by omega⟩
-    exact v256p_enc_load_lane_hi input k (by omega)
-
-theorem v256p_dec_load_lane (input : BitVec 1024) (j : Nat) (hj : j < 8) :
-    packT (laneRows8 (v256p_dec_load input) j) = input.extractLsb' (128 * j) 128 := by
-  by_cases h : j < 4
-  · exact v256p_dec_load_lane_lo input j h
-  · obtain ⟨k, rfl⟩ : ∃ k, j = k + 4 := ⟨j - 4, by omega⟩
-    exact v256p_dec_load_lane_hi input k (by omega)
-
-theorem v256p_enc_store_lane (rows : BitVec 256 × BitVec 256 × BitVec 256 × BitVec 256) (j : Nat) (hj : j < 8) :
-    (v256p_enc_store rows.1 rows.2.1 rows.2.2.1 rows.2.2.2).extractLsb' (128 * j) 128 = packT (laneRows8 rows j) := by
-  by_cases h : j < 4
-  · exact v256p_enc_store_lane_lo rows j h
-  · obtain ⟨k, rfl⟩ : ∃ k, j = k + 4 := ⟨j - 4, by omega⟩
-    exact v256p_enc_store_lane_hi rows k (by omega)
-
-theorem v256p_dec_store_lane (rows : BitVec 256 × BitVec 256 × BitVec 256 × BitVec 256) (j : Nat) (hj : j < 8) :
-    (v256p_dec_store rows.1 rows.2.1 rows.2.2.1 rows.2.2.2).extractLsb' (128 * j) 128 = packT (laneRows8 rows j) := by
-  by_cases h : j < 4
-  · exact v256p_dec_store_lane_lo rows j h
-  · obtain ⟨k, rfl⟩ : ∃ k, j = k + 4 := ⟨j - 4, by omega⟩
-    exact v256p_dec_store_lane_hi rows k (by omega)
-
-end SkinnyVerif.Lemmas
+import SkinnyVerif.Lemmas.Vec256LoadStore
